@@ -213,3 +213,235 @@ impl VerifServer {
         self.core_ref.get().worker_counter()
     }
 }
+
+// ---------------------------------------------------------------------------------------------
+// recording helpers (called from cfg-guarded statements in control.rs / reactor.rs)
+
+use crate::gateway::{CrashLimit, TaskSubmit};
+use crate::internal::common::resources::{ResourceRequestVariants, ResourceRqId};
+use crate::verif::sched::{RecNewTask, RecRq, RecRqEntry, Record, record};
+
+fn crash_limit_text(c: CrashLimit) -> String {
+    match c {
+        CrashLimit::NeverRestart => "N".to_string(),
+        CrashLimit::Unlimited => "U".to_string(),
+        CrashLimit::MaxCrashes(n) => n.to_string(),
+    }
+}
+
+pub(crate) fn record_task_submit(ts: &TaskSubmit) {
+    let tasks = ts
+        .tasks
+        .iter()
+        .map(|t| {
+            let shared = ts.shared_data.get(t.shared_data_index as usize);
+            let (instance, crashes) = ts
+                .adjust_instance_id_and_crash_counters
+                .get(&t.id)
+                .map(|(i, c)| (i.as_num(), *c))
+                .unwrap_or((0, 0));
+            RecNewTask {
+                id: t.id,
+                rq: t.resource_rq_id.as_num(),
+                user_priority: shared
+                    .map(|s| s.priority.to_string().parse().unwrap())
+                    .unwrap_or(0),
+                crash_limit: shared
+                    .map(|s| crash_limit_text(s.crash_limit))
+                    .unwrap_or_default(),
+                time_limit_ms: shared.and_then(|s| s.time_limit.map(|d| d.as_millis() as u64)),
+                deps: t.task_deps.iter().copied().collect(),
+                instance,
+                crashes,
+            }
+        })
+        .collect();
+    record(Record::NewTasks(tasks));
+}
+
+pub(crate) fn record_new_rq(rq_id: ResourceRqId, rqv: &ResourceRequestVariants) {
+    let variants = rqv
+        .requests()
+        .iter()
+        .map(|rq| RecRq {
+            n_nodes: rq.n_nodes(),
+            min_time_ms: rq.min_time().as_millis() as u64,
+            entries: rq
+                .entries()
+                .iter()
+                .map(|e| RecRqEntry {
+                    resource: e.resource_id.as_num(),
+                    amount: e.request.amount_or_none_if_all().map(|a| a.total_fractions()),
+                })
+                .collect(),
+        })
+        .collect();
+    record(Record::NewRq(rq_id.as_num(), variants));
+}
+
+// ---------------------------------------------------------------------------------------------
+// snapshot of the core for the correspondence check
+
+use crate::internal::server::task::TaskRuntimeState;
+use crate::internal::server::worker::WorkerAssignment;
+
+#[derive(Debug, Clone)]
+pub enum SnapTaskState {
+    Waiting(u32),
+    Assigned(u32, u32),
+    Prefilled(u32),
+    Retracting(u32),
+    Running(u32, u32),
+    RunningMultiNode(Vec<u32>),
+    Finished,
+}
+
+#[derive(Debug, Clone)]
+pub struct SnapTask {
+    pub id: crate::TaskId,
+    pub state: SnapTaskState,
+    pub consumers: Vec<crate::TaskId>,
+    pub deps: Vec<crate::TaskId>,
+    pub rq: u32,
+    pub instance: u32,
+    pub crashes: u32,
+}
+
+#[derive(Debug, Clone)]
+pub struct SnapWorker {
+    pub id: u32,
+    /// Some((assigned, free amounts, prefilled)) for a single-node assignment
+    pub sn: Option<(Vec<crate::TaskId>, Vec<u64>, Vec<crate::TaskId>)>,
+    /// Some((task, is_root)) for a multi-node assignment
+    pub mn: Option<(crate::TaskId, bool)>,
+    pub total: Vec<u64>,
+    pub blocked: Vec<(u32, u32)>,
+    pub group: String,
+    pub stopping: bool,
+}
+
+#[derive(Debug, Clone)]
+pub struct SnapQueue {
+    /// (raw priority, ids) in queue order
+    pub ready: Vec<(u64, Vec<crate::TaskId>)>,
+    pub prefill: Option<(u64, Vec<crate::TaskId>)>,
+}
+
+#[derive(Debug, Clone)]
+pub struct CoreSnapshot {
+    pub tasks: Vec<SnapTask>,
+    pub workers: Vec<SnapWorker>,
+    pub queues: Vec<SnapQueue>,
+    pub redirects: Vec<(crate::TaskId, u32, u32)>,
+}
+
+impl VerifServer {
+    pub fn core_snapshot(&self) -> CoreSnapshot {
+        use crate::internal::scheduler::verif_queue_snapshot;
+        let core = self.core_ref.get();
+        let split = core.split();
+        let mut tasks: Vec<SnapTask> = split
+            .task_map
+            .tasks()
+            .map(|t| {
+                let mut consumers: Vec<_> = t.get_consumers().iter().copied().collect();
+                consumers.sort();
+                SnapTask {
+                    id: t.id,
+                    state: match &t.state {
+                        TaskRuntimeState::Waiting { unfinished_deps } => {
+                            SnapTaskState::Waiting(*unfinished_deps)
+                        }
+                        TaskRuntimeState::Assigned { worker_id, rv_id } => {
+                            SnapTaskState::Assigned(worker_id.as_num(), rv_id.as_num() as u32)
+                        }
+                        TaskRuntimeState::Prefilled { worker_id } => {
+                            SnapTaskState::Prefilled(worker_id.as_num())
+                        }
+                        TaskRuntimeState::Retracting { worker_id } => {
+                            SnapTaskState::Retracting(worker_id.as_num())
+                        }
+                        TaskRuntimeState::Running { worker_id, rv_id } => {
+                            SnapTaskState::Running(worker_id.as_num(), rv_id.as_num() as u32)
+                        }
+                        TaskRuntimeState::RunningMultiNode(ws) => {
+                            SnapTaskState::RunningMultiNode(ws.iter().map(|w| w.as_num()).collect())
+                        }
+                        TaskRuntimeState::Finished => SnapTaskState::Finished,
+                    },
+                    consumers,
+                    deps: t.task_deps.iter().copied().collect(),
+                    rq: t.resource_rq_id.as_num(),
+                    instance: t.instance_id.as_num(),
+                    crashes: t.crash_counter,
+                }
+            })
+            .collect();
+        tasks.sort_by_key(|t| t.id);
+        let mut workers: Vec<SnapWorker> = split
+            .worker_map
+            .values()
+            .map(|w| {
+                let mut blocked: Vec<(u32, u32)> = w
+                    .blocked_requests
+                    .iter()
+                    .map(|(rq, rv)| (rq.as_num(), rv.as_num() as u32))
+                    .collect();
+                blocked.sort();
+                let (sn, mn) = match w.assignment() {
+                    WorkerAssignment::Sn(a) => {
+                        let mut assigned: Vec<_> = a.assigned_tasks.iter().copied().collect();
+                        assigned.sort();
+                        let mut prefilled: Vec<_> = a.prefilled_tasks.iter().copied().collect();
+                        prefilled.sort();
+                        (
+                            Some((
+                                assigned,
+                                a.free_resources
+                                    .iter_amounts()
+                                    .map(|x| x.total_fractions())
+                                    .collect(),
+                                prefilled,
+                            )),
+                            None,
+                        )
+                    }
+                    WorkerAssignment::Mn(m) => (None, Some((m.task_id, m.is_root))),
+                };
+                SnapWorker {
+                    id: w.id.as_num(),
+                    sn,
+                    mn,
+                    total: w.resources.iter_amounts().map(|x| x.total_fractions()).collect(),
+                    blocked,
+                    group: w.configuration.group.clone(),
+                    stopping: w.is_stopping(),
+                }
+            })
+            .collect();
+        workers.sort_by_key(|w| w.id);
+        let queues = split.task_queues.iter().map(verif_queue_snapshot).collect();
+        let mut redirects: Vec<_> = split
+            .scheduler_state
+            .redirects
+            .iter()
+            .map(|(t, (w, rv))| (*t, w.as_num(), rv.as_num() as u32))
+            .collect();
+        redirects.sort();
+        CoreSnapshot {
+            tasks,
+            workers,
+            queues,
+            redirects,
+        }
+    }
+
+    /// iteration order of the single-node assigned set of a worker (the order `on_remove_worker` uses)
+    pub fn assigned_order(&self, worker_id: WorkerId) -> Vec<crate::TaskId> {
+        let core = self.core_ref.get();
+        match core.get_worker_map().get(&worker_id).map(|w| w.assignment()) {
+            Some(WorkerAssignment::Sn(a)) => a.assigned_tasks.iter().copied().collect(),
+            _ => Vec::new(),
+        }
+    }
+}
